@@ -11,4 +11,5 @@ T2 == {<<1, 1>>, <<2, 3>>, <<3, 3>>, <<4, 2>>, <<1, 4>>, <<5, 1>>}
 S3 == {[dt |-> "i32", dims |-> <<2, 2, 2>>, chunk |-> <<1, 2, 1>>, max |-> <<-1, -1, -1>>, flt |-> ""]}
 T3 == {<<1, 2, 3>>, <<3, 1, 1>>, <<2, 3, 2>>, <<1, 1, 1>>}
 NoSoft == {}
+AllPaths == Paths
 =============================================================================
